@@ -10,6 +10,8 @@ GUARD_FLAGS = "--cfg ast_grep_verif --check-cfg cfg(ast_grep_verif)"
 # the subject tree: /repo, unless a scratch worktree is named (used only to try mutations
 # without touching /repo while other checks are running)
 REPO = os.environ.get("VERIF_REPO", "/repo")
+# evidence / replays go to /verif unless a scratch output root is named (mutation trials)
+OUT = os.environ.get("VERIF_OUT", VERIF)
 
 
 def machinery(msg):
@@ -145,7 +147,7 @@ class Reporter:
         return None
 
     def finish(self, level, coverage, assumptions, merge_into_existing=False):
-        d = os.path.join(VERIF, "replays", self.prop)
+        d = os.path.join(OUT, "replays", self.prop)
         os.makedirs(d, exist_ok=True)
         unknown = known_cnt = classes = 0
         lines, summary = [], []
@@ -168,7 +170,7 @@ class Reporter:
                 lines.append(f"VIOLATION property={self.prop} replay={path}")
                 sys.stderr.write(f"violation class sig={sig} cases={g['count']} smallest={json.dumps(g['example'], ensure_ascii=False, default=repr)[:600]}\n")
         wall = time.time() - self.start
-        evpath = os.path.join(VERIF, "evidence", f"{self.prop}.json")
+        evpath = os.path.join(OUT, "evidence", f"{self.prop}.json")
         os.makedirs(os.path.dirname(evpath), exist_ok=True)
         if merge_into_existing and os.path.exists(evpath):
             ev = json.load(open(evpath))
